@@ -238,3 +238,44 @@ def reused_criteria_stream(ctx, n):
         ctx.case_done(None, ('reused-criteria', it))
         if fails:
             ctx.oracle_failure({'stream': 'criteria list reused', 'case': {k: v for k, v in c.items() if k != 'adj_table'}}, fails)
+
+
+SENTINEL = 2 ** 200      # stands for +inf on the model side (ExtVal.v: the embedding keeps every comparison the loop makes)
+
+
+def infinity_tie_stream(ctx, n, name):
+    """Saturated pixels in the tie: the implementation runs on data with +inf, the Coq model on the same data with +inf
+    replaced by a finite number far above everything else (2**200).  ExtVal.v proves that this embedding keeps every
+    comparison the construction makes (order of the pixels, plateaus, rise >= min_delta with inf - inf counted as no rise,
+    threshold); here the two runs are compared (order, label map, structures)."""
+    import numpy as np
+    rng = ctx.rng('infinity-tie')
+    cases, model_cases, observations = [], [], []
+    for it in range(n):
+        c = gen.rand_case(rng, maxpix=24, dtype='float64', allow_user=False, scale=0)
+        c.pop('layout', None)
+        vals = list(c['vals'])
+        k = rng.randint(1, max(1, len(vals) // 4))
+        for j in rng.sample(range(len(vals)), min(k, len(vals))):
+            vals[j] = float('inf')
+        if not any(v is not None and v != float('inf') for v in vals):
+            vals[0] = 1
+        c['vals'] = vals
+        if c.get('minv') is None:
+            c['minv'] = min(v for v in vals if v is not None and v != float('inf')) - 1      # (the default ignores infinities too)
+        try:
+            d, obs = impl.compute_obs(c)
+        except Exception as e:
+            ctx.oracle_failure({k_: v_ for k_, v_ in c.items() if k_ != 'adj_table'}, ['implementation raised %r' % (e,)])
+            continue
+        ctx.count('infinity_tie_cases')
+        ctx.case_done(None, ('inf-tie', it) if len(obs['structs']) >= 2 else None)
+        cases.append(c)
+        model_cases.append(dict(c, vals=[SENTINEL if v == float('inf') else v for v in vals]))
+        observations.append(obs)
+    mism, errs = tie.run_compute_tie(name, model_cases, observations)
+    ctx.errors.extend(errs)
+    for i in mism[:5]:
+        show = dict(cases[i], vals=['inf' if v == float('inf') else v for v in cases[i]['vals']])
+        ctx.tie_mismatch('compute with +inf pixels (model: +inf embedded as 2**200)', {k_: v_ for k_, v_ in show.items() if k_ != 'adj_table'},
+                         observations[i], tie.model_compute_view(model_cases[i], name + '_dump'))
